@@ -457,6 +457,18 @@ def dfa_len(ab, op, k):
     return DFA(ab.n, trans, 0, acc)
 
 
+def dfa_all_chars(ab, pred, empty=False):
+    """{ s : every character of s satisfies pred } - with or without the
+    empty string (str.isalnum() and friends are False on '', str.isascii()
+    is True)."""
+    cls = ab.classes_where(pred)
+    allc = range(ab.n)
+    # states: 0 start, 1 all good so far, 2 dead
+    trans = [[1 if a in cls else 2 for a in allc],
+             [1 if a in cls else 2 for a in allc], [2] * ab.n]
+    return DFA(ab.n, trans, 0, {0, 1} if empty else {1})
+
+
 def dfa_char_at(ab, pos, pred):
     """{ s : pred(s[pos]) } for pos in {0, -1}; strings too short are NOT in
     the language (they raise)."""
